@@ -309,14 +309,11 @@ Fixpoint collect {A : Type} (verdict : A -> nat) (i : nat) (cs : list A) : list 
               end
   end.
 
-Definition known_c29 (h : hist) : bool := known_c29_events (h_mode h) (h_events h).
-
 (* 1 = the history is not a trace of the model; 2 = a C29 monitor rejects the
-   history; 4 (with 2) = only the strict terminate monitor rejects it, i.e. the
-   case lies in the known class (archive file left by a Reset that overlapped
-   the Terminate) *)
+   history (the terminate monitor in its strict form: since controller.reset
+   refuses a disabled controller there is no known class any more) *)
 Definition c29_verdict (h : hist) : nat :=
-  corr_bit h + (if check_c29 h then 0 else 2 + (if known_c29 h then 4 else 0)).
+  corr_bit h + (if check_c29 h then 0 else 2).
 Definition c29_failures := collect c29_verdict.
 
 Inductive c11case :=
